@@ -133,10 +133,10 @@ func (ls *Layouts) Of(t types.Type) *StructLayout {
 	ls.nextID++
 	ls.byName[name] = l
 	slot := 0
+	// byte arrays of a node class start at offset 0 of the object's byte row (so that
+	// quantified key indices appear without an offset in the verification conditions);
+	// the embedded header's prefix lives at offset 1024
 	byteBase := 0
-	if name != "node" {
-		byteBase = 16 // bytes [0,16) are reserved for the embedded header's prefix
-	}
 	for i := 0; i < st.NumFields(); i++ {
 		f := st.Field(i)
 		fi := &FieldInfo{Name: name + "." + f.Name(), Typ: f.Type()}
@@ -161,7 +161,7 @@ func (ls *Layouts) Of(t types.Type) *StructLayout {
 				fi.Kind = FByteArr
 				fi.N = int(u.Len())
 				if name == "node" {
-					fi.Base = 0
+					fi.Base = 1024
 				} else {
 					fi.Base = byteBase
 					byteBase += (fi.N + 15) / 16 * 16
@@ -241,6 +241,9 @@ func (ex *Exec) byteSort() string {
 
 // heapSort returns the sort of a heap array by name (declares initial symbol).
 func (ex *Exec) heapInit(name string, sort string) Term {
+	if ex.mode == ModeBV {
+		return ex.st.Const("Hbv."+name, sort)
+	}
 	return ex.st.Const("H."+name, sort)
 }
 
@@ -294,8 +297,8 @@ func (ex *Exec) idxTerm(v IntV) Term {
 func (s *State) loadSlot(ex *Exec, obj, idx Term) StructV {
 	sp := s.H(ex, "SP", ex.spSort())
 	stt := s.H(ex, "ST", ex.stSort())
-	p := Select(Select(sp, obj), idx)
-	t := Select(Select(stt, obj), idx)
+	p := s.sel(s.sel(sp, obj), idx)
+	t := s.sel(s.sel(stt, obj), idx)
 	tv := IntV{T: t, W: 8, Signed: false}
 	ex.assumeRange(s, tv)
 	ex.assumeAllocated(s, p)
@@ -307,8 +310,8 @@ func (s *State) storeSlot(ex *Exec, obj, idx Term, v StructV) {
 	stt := s.H(ex, "ST", ex.stSort())
 	p := v.Fields["pointer"].(RefV).T
 	t := v.Fields["tag"].(IntV).T
-	s.setH("SP", Store(sp, obj, Store(Select(sp, obj), idx, p)))
-	s.setH("ST", Store(stt, obj, Store(Select(stt, obj), idx, t)))
+	s.setH("SP", Store(sp, obj, Store(s.sel(sp, obj), idx, p)))
+	s.setH("ST", Store(stt, obj, Store(s.sel(stt, obj), idx, t)))
 }
 
 func (ex *Exec) mkNodeRef(p RefV, tag IntV) StructV {
@@ -319,14 +322,14 @@ func (ex *Exec) mkNodeRef(p RefV, tag IntV) StructV {
 
 func (s *State) loadByte(ex *Exec, obj, idx Term) IntV {
 	b := s.H(ex, "B", ex.bSort())
-	v := IntV{T: Select(Select(b, obj), idx), W: 8}
+	v := IntV{T: s.sel(s.sel(b, obj), idx), W: 8}
 	ex.assumeRange(s, v)
 	return v
 }
 
 func (s *State) storeByte(ex *Exec, obj, idx Term, v IntV) {
 	b := s.H(ex, "B", ex.bSort())
-	s.setH("B", Store(b, obj, Store(Select(b, obj), idx, v.T)))
+	s.setH("B", Store(b, obj, Store(s.sel(b, obj), idx, v.T)))
 }
 
 // scalar fields ------------------------------------------------------------
@@ -334,7 +337,7 @@ func (s *State) storeByte(ex *Exec, obj, idx Term, v IntV) {
 func (s *State) loadScalar(ex *Exec, name string, typ types.Type, obj Term) Value {
 	sort := ex.scalarSort(typ)
 	arr := s.H(ex, name, ArrSort(SRef, sort))
-	t := Select(arr, obj)
+	t := s.sel(arr, obj)
 	v := ex.wrapScalar(t, typ)
 	if iv, ok := v.(IntV); ok {
 		ex.assumeRange(s, iv)
@@ -436,9 +439,14 @@ func (s *State) assumeOnce(t Term) {
 	if t.IsTrue() {
 		return
 	}
+	if s.collect != nil {
+		*s.collect = append(*s.collect, t)
+		return
+	}
 	if s.pcSet[t.S] {
 		return
 	}
+	s.noteNeq(t)
 	s.pcSet = copySet(s.pcSet)
 	s.pcSet[t.S] = true
 	s.pc = append(s.pc[:len(s.pc):len(s.pc)], t)
@@ -455,6 +463,13 @@ func copySet(m map[string]bool) map[string]bool {
 // newObject allocates a fresh object of (ghost) type id.
 func (s *State) newObject(ex *Exec, hint string, typeID int) Term {
 	r := ex.st.Fresh("new."+hint, SRef)
+	s.serial++
+	fa := make(map[string]int, len(s.freshAt)+1)
+	for k, v := range s.freshAt {
+		fa[k] = v
+	}
+	fa[r.S] = s.serial
+	s.freshAt = fa
 	al := s.H(ex, "alloc", ArrSort(SRef, SBool))
 	s.assume(Not(Eq(r, Null)))
 	s.assume(Not(Select(al, r)))
@@ -470,7 +485,144 @@ func (s *State) assume(t Term) {
 	if t.IsTrue() {
 		return
 	}
+	if s.collect != nil {
+		*s.collect = append(*s.collect, t)
+		return
+	}
+	s.noteNeq(t)
 	s.pc = append(s.pc[:len(s.pc):len(s.pc)], t)
 }
 
 func heapNameOK(n string) bool { return !strings.ContainsAny(n, " ()") }
+
+// noteNeq records syntactic disequalities (not (= a b)) found in assumptions (also inside conjunctions).
+func simpleTerm(t string) bool { return !strings.ContainsAny(t, " (") }
+
+func (s *State) noteNeq(t Term) {
+	for _, c := range conjuncts(t) {
+		if strings.HasPrefix(c.S, "(= ") {
+			eq := splitArgs(c.S)
+			if len(eq) == 3 {
+				a, b := eq[1], eq[2]
+				if simpleTerm(a) && !simpleTerm(b) {
+					a, b = b, a
+				}
+				if !simpleTerm(a) && simpleTerm(b) {
+					n := make(map[string]string, len(s.eqc)+1)
+					for k, v := range s.eqc {
+						n[k] = v
+					}
+					n[a] = b
+					s.eqc = n
+				}
+			}
+			continue
+		}
+		if !strings.HasPrefix(c.S, "(not (= ") {
+			continue
+		}
+		inner := splitArgs(c.S)
+		if len(inner) != 2 {
+			continue
+		}
+		eq := splitArgs(inner[1])
+		if len(eq) != 3 || eq[0] != "=" {
+			continue
+		}
+		n := make(map[string]bool, len(s.neq)+2)
+		for k := range s.neq {
+			n[k] = true
+		}
+		n[eq[1]+"|"+eq[2]] = true
+		n[eq[2]+"|"+eq[1]] = true
+		s.neq = n
+	}
+}
+
+func isFreshSym(t string) bool { return strings.HasPrefix(t, "new.") && !strings.ContainsAny(t, " (") }
+
+// entryTerm: built only from parameters and the initial heap (no stores, havocs, fresh objects).
+func entryTerm(t string) bool {
+	if t == "null" {
+		return true
+	}
+	for _, bad := range []string{"new.", "store", ".call!", ".loop!", "havoc.", "ret.", "append.", "loop.", "t!", "copy!", "memmove!"} {
+		if strings.Contains(t, bad) {
+			return false
+		}
+	}
+	return true
+}
+
+// distinct: a and b are known to differ without asking the solver.
+func (s *State) distinct(a, b Term) bool {
+	if a.S == b.S {
+		return false
+	}
+	if s.neq[a.S+"|"+b.S] {
+		return true
+	}
+	if isFreshSym(a.S) && (isFreshSym(b.S) || entryTerm(b.S)) {
+		return true
+	}
+	if isFreshSym(b.S) && entryTerm(a.S) {
+		return true
+	}
+	return false
+}
+
+// sel reads arr[idx], looking through stores at indices known to differ from idx.
+func (s *State) sel(arr, idx Term) Term {
+	for strings.HasPrefix(arr.S, "(store ") {
+		a, i, v, ok := splitStore(arr.S)
+		if !ok {
+			break
+		}
+		if i == idx.S {
+			return Term{v, elemSort(arr.Sort)}
+		}
+		it := Term{i, idx.Sort}
+		if (isNumeral(i) && isNumeral(idx.S)) || s.distinct(it, idx) {
+			arr = Term{a, arr.Sort}
+			continue
+		}
+		break
+	}
+	// look through havocs whose frame leaves idx untouched
+	for idx.Sort == SRef {
+		fi := s.frames[arr.S]
+		if fi == nil || !s.existedAt(idx, fi) {
+			break
+		}
+		ok := true
+		for _, e := range fi.except {
+			if e == idx.S || !s.distinct(idx, Term{e, SRef}) {
+				ok = false
+				break
+			}
+		}
+		if !ok {
+			break
+		}
+		arr = fi.old
+		// continue peeling stores of the older array
+		return s.sel(arr, idx)
+	}
+	r := Select(arr, idx)
+	if v, ok := s.eqc[r.S]; ok {
+		return Term{v, r.Sort}
+	}
+	return r
+}
+
+// existedAt: idx denotes a non-null object that was allocated when the havoc of fi happened.
+func (s *State) existedAt(idx Term, fi *frameInfo) bool {
+	if idx.S == "null" {
+		return false
+	}
+	if isFreshSym(idx.S) {
+		at, ok := s.freshAt[idx.S]
+		return ok && !fi.entry && at < fi.serial
+	}
+	return entryTerm(idx.S) && s.neq[idx.S+"|null"]
+}
